@@ -147,6 +147,13 @@ theorem c19_x_same_mapping :
     astAssignments = ["StartSearch: r.Params.AST = ast.Root", "doSearch: state.Request.Params.AST = ast.Root",
                       "loadAsyncSearches: req.Request.Params.AST = nil"] := by decide
 
+/-- **the resumed search covers the fractions recorded at start.**  The model's `resumeWrites` iterates `info.fracs` as
+persisted by `startWrites`; in the code: `MustStartAsync` only calls `processRequest` for an unfinished request,
+`doSearch` ranges over `state.Fractions`, and the only write of a `Fractions` field is the one `StartSearch` persists. -/
+theorem c19_x_persisted_fractions :
+    resumeCalls = ["as.processRequest"] ∧ doSearchFractionLoop = ["state.Fractions"] ∧
+    fractionsWrites = ["StartSearch: Fractions: fracsToSearch"] := by decide
+
 /-- the source contains the repaired fold (the model used by `c19_eq_sync_hist`) -/
 theorem c19_x_fetch_fixed : fetchUsesRequestInterval = true := by decide
 
